@@ -77,6 +77,16 @@ STRENGTHENED = {
     "C11-m9": "missed at first (a liquidation inside a bracket only in sampled shapes); directed shapes drive the account under water inside its own bracket and try the classic liquidation and the bankruptcy handler before the borrower repairs it",
     "C12-m9": "missed at first (the settings were never moved to another feed); the admin rotates the settings' price feed before the permissionless propagation reaches the frozen bank",
     "C14-m9": "missed at first; the risk admin's token-less settlement of a whole debt inside a deleverage bracket is tried on a paused (refused) and a reduce-only (accepted) flagged bank",
+    "C20-m10": "missed at first (the direct engine of C20 drove the conversion functions, which still report the overflow - it is the adapter that dropped it); the C20 direct engine now runs the pass-through price adapters with a quarter of the cases at the overflow cliff",
+    "C08-m11": "missed at first by C08 (C19 saw it); C08 worlds run the rewards-inside-receivership scenario and the payout rule of the rewards monitor raises its verdict under C08 too",
+    "C08-m12": "missed at first by C08 (C19 saw it); the payout rule of the rewards monitor (registered destination or the authority's signature) also runs in the C08 check",
+    "C10-m11": "missed at first (a rewards claim inside the bracket was only ever signed by the receiver, which the claim itself refuses); the owner co-signs a claim of its own rewards inside the receiver's bracket",
+    "C10-m12": "missed at first (the receiver never repaid more than half of the debt); repay-all of every liability with a bisected seizure",
+    "C11-m12": "missed at first (no shape ever ran on a frozen account); directed brackets on a frozen account signed by the owner and by the admin, and a freeze inside the bracket",
+    "C12-m11": "missed at first by C12 (the C08 matrix has the foreign-group cell); the metadata admin of a second group writes this group's bank metadata, judged against the metadata admin of the bank's own group",
+    "C14-m11": "missed at first; the reduce-only valuation cell lets the collateral's price go stale and tries classic liquidation, receivership start and bankruptcy of the healthy account",
+    "C16-m11": "missed at first by C16 (C07 had the scenario, the C16 storms had only the monitor); an account goes bankrupt in the C16 storms and its owner moves it",
+    "C16-m12": "missed at first by C16 (C02 had the scenario); the C16 storms run the wipe-out whose worthless collateral is seized completely, then the debtor tries to close its account",
     "C15-m9": "missed at first; the pause-chain engine hands the admin role back and forth between two keys",
     "V4-m2": "caught once every gated instruction (not only deposit) is probed right after the pause expiry",
 }
@@ -106,7 +116,7 @@ def row(d):
     c = m.get("confirmed")
     conf = "yes" if c and c.get("demo_passes_on_unchanged_tree") and c.get("demo_fails_with_change") and c["suite_with_change"]["marginfi_lib_164_pass"] else ("n/a" if not c else "NO")
     return sid, title(d), conf, out, note
-print("### 13.1 Changes written by independent sub-agents, six rounds: -m1/-m2 first, -m3/-m4 third, -m5/-m6 fourth, -m7/-m8 fifth, -m9/-m10 sixth (confirmed = demo passes on the unchanged tree, fails with the change, suite unchanged)\n")
+print("### 13.1 Changes written by independent sub-agents, seven rounds: -m1/-m2 first, -m3/-m4 third, -m5/-m6 fourth, -m7/-m8 fifth, -m9/-m10 sixth, -m11/-m12 seventh (confirmed = demo passes on the unchanged tree, fails with the change, suite unchanged)\n")
 print("| id | change | confirmed | caught by (first signature) | note |\n|---|---|---|---|---|")
 for d in sorted(glob.glob(f"{R}/C??-m*"), key=lambda x: (os.path.basename(x)[:3], int(os.path.basename(x).split("-m")[1]))):
     print("| " + " | ".join(row(d)) + " |")
